@@ -41,8 +41,10 @@ warnings.filterwarnings('ignore')
 PROP_MAIN = ['Lcapy/Props/C16.lean', 'Lcapy/Props/C16Pure.lean', 'Lcapy/Props/C16Sym.lean', 'Lcapy/Props/C16Env.lean', 'Lcapy/Props/C16Alias.lean',
              'Lcapy/Props/C16Tables.lean',
              'Lcapy/Props/C16Full.lean', 'Lcapy/Props/C16Order.lean']
+# the reviewer's machine-checked non-vacuity witnesses (they import the code-dependent modules, so they are built with them)
+PROP_WITNESS = ['Lcapy/Props/NonVacuityC16.lean', 'Lcapy/Props/NonVacuityC16Alias.lean']
 # table checks that build iff the code is free of a recorded open finding: the exception branch of `add`
-PROP_CODE = ['Lcapy/Props/C16Atomic.lean', 'Lcapy/Props/C16SymCode.lean']
+PROP_CODE = ['Lcapy/Props/C16Atomic.lean', 'Lcapy/Props/C16SymCode.lean', 'Lcapy/Props/C16PureCode.lean']
 HELPERS = ['Lcapy/Model/Cache.lean', 'Lcapy/Model/CacheAux.lean', 'Lcapy/Spec/Cache.lean',
            'Lcapy/Proofs/CacheTab.lean', 'Lcapy/Proofs/CacheElts.lean', 'Lcapy/Proofs/CacheInv.lean',
            'Lcapy/Proofs/CacheIso.lean', 'Lcapy/Proofs/CachePure.lean', 'Lcapy/Proofs/CacheAux.lean', 'Lcapy/Driver/C16.lean',
@@ -60,6 +62,9 @@ GRAPH_QUERIES = [('in_series', 'cpt?'), ('in_parallel', 'cpt?'), ('across_nodes'
 SOLVE_QUERIES = ['get_Vd', 'get_I']
 HEAVY_QUERIES = ['sim', 'transfer', 'state_space', 'thevenin']
 DERIVES = ['copy', 'kill', 'select', 'simplify', 'remove_dangling', 'subs', 'renumber']
+# further parameterless public transformations: the derived netlist is compared with the same transformation of a fresh
+# rebuild, the derived instance itself is not tracked
+EXTRA_DERIVES = ['expand', 's_model', 'r_model', 'pre_initial_model', 'ss_model', 'noise_model', 'laplace', 'kill_zero', 'time']
 # a transformation with an optional argument and the same call with the documented default passed explicitly
 EXPLICIT_DEFAULT = {'renumber': lambda c: c.renumber({})}
 NODES = ['0', '1', '2', '3', '4', '5']
@@ -108,6 +113,12 @@ class Real:
     def text(self, c):
         return c.netlist()
 
+    def dtext(self, c):
+        """netlist of a DERIVED circuit: dummy nodes / anonymous components are numbered by per-instance counters"""
+        if c is None or not hasattr(c, 'netlist'):
+            return 'result:' + str(c)
+        return re.sub(r'_?nodeanon\d+|anon\d+', 'anon', c.netlist())
+
     # ---- observations
     @staticmethod
     def an(n):
@@ -127,7 +138,7 @@ class Real:
         dang = [an(n) for n, e in c._elements.items() if e.is_dangling]
         j = lambda l: ','.join(l) or '-'        # noqa
         return ['elts=' + j(names), 'counts=' + j(counts), 'degs=' + j(degs), 'unconn=' + j(unconn), 'dang=' + j(dang),
-                'conn=' + j(conn)]
+                'conn=' + j(conn), 'kind=' + str(c.kind)]
 
     MODEL_STRUCT = ('elts', 'counts', 'degs', 'unconn', 'dang')
 
@@ -300,14 +311,39 @@ class Real:
                         culprit = d
             after = self.expr_snapshot(x)
             again = self.expr_snapshot(self.query_obj(c, q, arg)(s))
-            return before, after, culprit, again
+            return before, after, culprit, again, self.alias_observation(c, q, arg)
         except Timeout:
             return None
         except Exception as e:          # noqa
-            return ['error:' + type(e).__name__], ['error:' + type(e).__name__], None, ['error:' + type(e).__name__]
+            return ['error:' + type(e).__name__], ['error:' + type(e).__name__], None, ['error:' + type(e).__name__], None
         finally:
             signal.setitimer(signal.ITIMER_REAL, 0)
             signal.signal(signal.SIGALRM, oldh)
+
+    ALIAS_DERIVATIONS = [('as_transfer', 'c'), ('as_impedance', 'c'), ('as_admittance', 'c'), ('as_voltage', 'n'), ('as_current', 'n'),
+                         ('as_expr', 'n')]
+
+    def alias_observation(self, c, q, arg):
+        """for the correspondence with Model/Alias.lean `derive`: the time-behaviour flags (causal, dc, ac) of a kept
+        Laplace-domain result before, of every expression derived from it, and of the kept one afterwards"""
+        from lcapy import s
+
+        def flags(e):
+            a = e.assumptions
+            return '%d%d%d' % (bool(a.get('causal')), bool(a.get('dc')), bool(a.get('ac')))
+        x = self.query_obj(c, q, arg)(s)
+        f0 = flags(x)
+        codes, derived = [], []
+        for d, code in self.ALIAS_DERIVATIONS:
+            try:
+                y = getattr(x, d)()
+            except Exception:       # noqa
+                continue
+            if y is x:
+                continue            # not a derivation: the method handed the object itself back
+            codes.append(code)
+            derived.append(flags(y))
+        return f0, codes, derived, flags(x)
 
     def result_fresh(self, c, q, arg):
         from lcapy import s
@@ -407,6 +443,8 @@ class Real:
             return c.subs({'Rx': 3})
         if kind == 'renumber':
             return c.renumber()
+        if kind in EXTRA_DERIVES:
+            return getattr(c, kind)()
         raise ValueError(kind)
 
     def memo_bits(self, c, memo_names):
@@ -434,7 +472,7 @@ def op_line(op):
     if k == 'setting':
         # toggling a process-wide setting is not an operation of the netlist machine
         return ''
-    if k == 'query1':
+    if k in ('query1', 'derive1'):
         return 'query %d %s' % (op[1], MODEL_QUERY.get(op[2], op[2]))
     if k == 'derive':
         lines = op[3]
@@ -469,6 +507,7 @@ class History:
         self.snap = []
         self.taint = []
         self.modelled = []       # instance is representable in the model
+        self.kind0 = []          # transform-domain kind each instance was CREATED with (never changed by the public API)
         self.counter = {}
         self.found = []          # counterexample keys found in this history
         self.disagree = []
@@ -489,6 +528,7 @@ class History:
 
     def new_instance(self, c, op, modelled=True):
         self.insts.append(c)
+        self.kind0.append(c.kind)
         self.snap.append({})
         self.taint.append('clean')
         self.modelled.append(modelled)
@@ -520,7 +560,7 @@ class History:
         c = self.insts[i]
         hist = self.R.structural(c)
         self.pending.append({'what': 'struct', 'k': len(self.ops), 'i': i, 'cause': cause, 'taint': self.taint[i],
-                             'text': self.R.text(c), 'kind': c.kind, 'hist': hist})
+                             'text': self.R.text(c), 'kind': self.kind0[i], 'hist': hist})
         if self.modelled[i]:
             r = self.drv.ask1('c16.obs %d %s' % (i, self.model_ops()))
             mod = [t for t in r.split() if t.split('=')[0] in Real.MODEL_STRUCT]
@@ -544,7 +584,7 @@ class History:
         self.chk.count('query', q)
         self.chk.count('answer-kind', 'error' if got.startswith('error:') else 'value')
         self.pending.append({'what': 'query', 'k': len(self.ops), 'i': i, 'q': q, 'arg': arg, 'taint': self.taint[i],
-                             'text': self.R.text(c), 'kind': c.kind, 'hist': got, 'trace': trace_rec, 'modelled': self.modelled[i],
+                             'text': self.R.text(c), 'kind': self.kind0[i], 'hist': got, 'trace': trace_rec, 'modelled': self.modelled[i],
                              'snap': dict(self.snap[i]), 'setting': self.setting_touched})
         return got
 
@@ -578,6 +618,11 @@ class History:
         if not self.spec_same(p['hist'], fresh) and self.struct_flagged.get(i) != p['taint']:
             self.struct_flagged[i] = p['taint']
             differs = [a.split('=')[0] for a, b in zip(p['hist'], fresh) if a != b]
+            if differs == ['kind']:
+                self.counterexample({'kind': 'instance-attribute-changed', 'attr': 'kind', 'after': p['taint']},
+                                    'the transform-domain kind of the circuit changed (it was created as %r) after %s' % (p['kind'], p['cause']),
+                                    {'instance': i, 'lcapy': p['hist'][-1], 'fresh': fresh[-1], 'netlist': p['text']})
+                return
             self.counterexample({'kind': 'node-count', 'after': p['taint'], 'op': p['cause']},
                                 'node table (%s) differs from a fresh build after %s' % (','.join(differs), p['cause']),
                                 {'instance': i, 'lcapy': p['hist'], 'fresh': fresh, 'netlist': p['text'], 'differs': differs})
@@ -685,7 +730,7 @@ class History:
         except Exception as e:      # noqa
             fd, ferr = None, 'error:' + type(e).__name__
         a = p['hist']
-        b = [kind, ferr or self.R.text(fd).replace('\n', '\\n').replace(' ', '_')]
+        b = [kind, ferr or self.R.dtext(fd).replace('\n', '\\n').replace(' ', '_')]
         if not self.spec_same(a, b):
             self.counterexample({'kind': 'derive-differs', 'op': kind, 'after': p['taint']},
                                 '%s() of the circuit differs from %s() of a freshly built circuit' % (kind, kind),
@@ -814,7 +859,7 @@ class History:
                                     {'instance': i, 'query': q, 'arg': arg, 'first': got, 'second': again, 'netlist': self.R.text(c)})
         # QUERY PURITY: the fixed battery on the same instance, compared (deferred) with the battery on a fresh rebuild
         self.pending.append({'what': 'battery', 'k': len(self.ops), 'i': i, 'cause': q, 'arg': arg, 'taint': self.taint[i],
-                             'text': self.R.text(c), 'kind': c.kind, 'hist': self.R.battery(c)})
+                             'text': self.R.text(c), 'kind': self.kind0[i], 'hist': self.R.battery(c)})
         if q in SOLVE_QUERIES and not got.startswith('error:'):
             self.value_query_extras(i, q, arg)
         self.record_snaps()
@@ -847,21 +892,31 @@ class History:
                 combo = 'error:' + type(e).__name__
             self.chk.count('combined-answers', 'noisy' if '|n=' in combo else 'plain')
             self.pending.append({'what': 'combo', 'k': len(self.ops), 'i': i, 'q': q, 'args': [prev[2], arg], 'taint': self.taint[i],
-                                 'text': text, 'kind': c.kind, 'hist': combo})
+                                 'text': text, 'kind': self.kind0[i], 'hist': combo})
         self.last_value[i] = (text, q, arg, obj)
         rp = self.R.result_purity(c, q, arg)
         if rp is None:
             self.chk.count('degenerate', 'solver-timeout')
             return
-        before, after, culprit, again = rp
+        before, after, culprit, again, alias = rp
         self.chk.count('result-purity', 'checked')
+        if alias is not None:
+            # correspondence with the executable heap model of Expr.__init__ (driver `c16.alias`)
+            f0, codes, derived, f1 = alias
+            m = dict(t.split('=') for t in self.drv.ask1('c16.alias %s %s %s ; %s' % (f0[0], f0[1], f0[2], ' '.join(codes))).split())
+            self.chk.coverage['correspondence']['compared'] += 1
+            self.chk.count('alias-model', 'compared')
+            if m.get('src') != f1 or m.get('derived') != (','.join(derived) or '-'):
+                self.chk.coverage['correspondence']['disagreements'] += 1
+                self.disagree.append({'what': 'alias model of Expr.__init__', 'model': m, 'lcapy': {'before': f0, 'derived': derived, 'after': f1},
+                                      'query': [q, arg], 'netlist': text})
         if not self.spec_same(before, after):
             differs = [a.split('=')[0] for a, b in zip(before, after) if a != b]
             self.counterexample({'kind': 'result-mutated', 'by': culprit or '?', 'after': self.taint[i]},
                                 'deriving a new expression (%s) from a kept query result changed the kept object (%s)' % (culprit, ','.join(differs)),
                                 {'instance': i, 'query': q, 'arg': arg, 'before': before, 'after_derivations': after, 'netlist': text})
         self.pending.append({'what': 'result', 'k': len(self.ops), 'i': i, 'q': q, 'arg': arg, 'taint': self.taint[i],
-                             'text': text, 'kind': c.kind, 'hist': again, 'kept': after})
+                             'text': text, 'kind': self.kind0[i], 'hist': again, 'kept': after})
 
     def finish_combo(self, p):
         f = self.R.fresh(p['text'], p['kind'])
@@ -917,14 +972,14 @@ class History:
             d, err = None, 'error:' + type(e).__name__
         self.chk.count('op', 'derive-' + kind)
         self.check_context(i, 'derive-' + kind)
-        a = [kind, err or self.R.text(d).replace('\n', '\\n').replace(' ', '_')]
-        self.pending.append({'what': 'derive', 'k': len(self.ops) + 1, 'i': i, 'kind': kind, 'ckind': c.kind, 'taint': self.taint[i],
+        a = [kind, err or self.R.dtext(d).replace('\n', '\\n').replace(' ', '_')]
+        self.pending.append({'what': 'derive', 'k': len(self.ops) + 1, 'i': i, 'kind': kind, 'ckind': self.kind0[i], 'taint': self.taint[i],
                              'text': before, 'hist': a})
         if d is not None and kind in EXPLICIT_DEFAULT:
             # omitting an optional argument = passing its documented default explicitly (a mutable default argument is one
             # object for the whole process and remembers the circuits of earlier calls)
             try:
-                e = self.R.text(EXPLICIT_DEFAULT[kind](c)).replace('\n', '\\n').replace(' ', '_')
+                e = self.R.dtext(EXPLICIT_DEFAULT[kind](c)).replace('\n', '\\n').replace(' ', '_')
             except Exception as ex:     # noqa
                 e = 'error:' + type(ex).__name__
             self.chk.count('explicit-default', kind)
@@ -935,10 +990,13 @@ class History:
         if self.R.text(c) != before:
             self.counterexample({'kind': 'source-changed', 'op': kind, 'after': self.taint[i]},
                                 '%s() changed the original circuit' % kind, {'instance': i, 'before': before, 'now': self.R.text(c)})
-        if d is None or d is c:
-            # nothing new to track (error, or simplify returned self)
-            self.ops.append(('query', i, kind))
+        if d is None or d is c or kind in EXTRA_DERIVES:
+            # nothing new to track (error, simplify returned self, or a transformation whose result is only compared)
+            self.ops.append(('derive1', i, kind))
             self.record_snaps()
+            # a transformation must leave the circuit it was applied to as it was
+            for j in range(len(self.insts)):
+                self.check_structural(j, 'derive-' + kind if j == i else 'op-on-other-instance')
             return None
         lines = [l for l in self.R.text(d).split('\n') if l.strip()]
         modelled = self.modelled[i] and all(line_ok_for_model(l, self.drv) for l in lines) and len(set(l.split()[0] for l in lines)) == len(lines)
@@ -1148,6 +1206,8 @@ def gen_history(chk, h, rng, nops, heavy, deadline=None):
         elif r < 0.94:
             kind = rng.choice(['copy', 'copy', 'kill', 'select', 'simplify', 'simplify', 'remove_dangling', 'remove_dangling',
                                'renumber', 'renumber'] + (['subs'] if i == 1 else []))
+            if rng.random() < 0.25:
+                kind = rng.choice(EXTRA_DERIVES)
             j = h.do_derive(i, kind)
             if j is not None and len(active) < 4 and rng.random() < 0.6:
                 active.append(j)
@@ -1423,6 +1483,66 @@ def symreg_case(chk, R, drv, rng, case_no, ops=None):
     return found
 
 
+# --------------------------------------------------------------------------- renumber(): correspondence with Model/Alias.lean
+
+RENUMBER_CALLS = []     # node lists of every renumber() call made by this stream in this process, in order
+
+
+def renumber_case(chk, R, drv, rng, k):
+    """two wire-free circuits sharing node names, renumbered one after the other in this process: the node mapping each call
+    uses is compared with the executable model `renumberS` (per-call default iff the generated `mutableDefaults` is empty),
+    which is given the whole sequence of calls of the process"""
+    pool = ['in', 'out', 'x', 'y', 'mid', '0', 'a', 'b']
+    found = []
+    for which in range(2):
+        nn = rng.sample(pool, rng.randint(3, 5))
+        if which and rng.random() < 0.7 and RENUMBER_CALLS:
+            prev = RENUMBER_CALLS[-1]
+            nn = list(reversed(prev))[:rng.randint(2, len(prev))] + [n for n in nn if n not in prev][:2]
+        lines, order = [], []
+        for j in range(len(nn)):
+            a, b = nn[j], nn[(j + 1) % len(nn)]
+            lines.append('%s%d %s %s %d' % (rng.choice('RCL'), j + 1, a, b, rng.randint(1, 9)))
+            for n in (a, b):
+                if n not in order:
+                    order.append(n)
+        c = R.lcapy.Circuit()
+        for l in lines:
+            c.add(l)
+        try:
+            d = c.renumber()
+            got = {}
+            for nm, e in c._elements.items():
+                for o, nw in zip([x.name for x in e.nodes], [x.name for x in d._elements[nm].nodes]):
+                    got[o] = nw
+            got = ','.join(sorted('%s>%s' % kv for kv in got.items()))
+        except Exception:       # noqa
+            got = 'raise'
+        RENUMBER_CALLS.append(order)
+        want = drv.ask1('c16.renumber ' + ' ; '.join(' '.join(o) for o in RENUMBER_CALLS)).split(' ; ')[-1]
+        want = want if want == 'raise' else ','.join(sorted(want.split(',')))
+        chk.case(('renumber', k, which), True)
+        chk.count('renumber-model', 'compared')
+        chk.coverage['correspondence']['compared'] += 1
+        if got != want:
+            chk.coverage['correspondence']['disagreements'] += 1
+            found.append({'what': 'renumber model', 'model': want, 'lcapy': got, 'netlist': lines, 'calls_before': len(RENUMBER_CALLS) - 1})
+        # ORACLE: the call with the default omitted == the call with the documented default passed explicitly
+        try:
+            e = R.dtext(c.renumber({}))
+            same = drv.ask1('c16.same %s == %s' % (R.dtext(d).replace('\n', '|').replace(' ', '_'), e.replace('\n', '|').replace(' ', '_'))) == 'true'
+        except Exception:       # noqa
+            same = (got == 'raise')
+        if not same:
+            key = {'kind': 'default-argument-state', 'op': 'renumber', 'after': 'clean'}
+            chk.count('counterexample', json.dumps(key, sort_keys=True))
+            chk.counterexample(key, {'input': {'netlist': lines, 'earlier_renumber_calls': [list(o) for o in RENUMBER_CALLS[:-1]]},
+                                     'lcapy': got, 'spec': 'renumber() == renumber({})'},
+                               'renumber() differs from renumber({}): the default dictionary remembers earlier circuits')
+            found.append(key)
+    return found
+
+
 # --------------------------------------------------------------------------- hash seeds
 
 HASH_HISTORIES = [
@@ -1621,6 +1741,10 @@ def corpus_histories():
         ('builtin:kept-results', [('new', ['V1 1 0 dc 10', 'R1 1 2 2', 'R2 2 0 3']), ('query', 0, 'get_Vd', '2'),
                                   ('query', 0, 'get_I', 'R1'), ('new', ['V1 1 0 ac 10', 'R1 1 2 2', 'C1 2 0 3']),
                                   ('query', 1, 'get_Vd', '2'), ('query', 0, 'get_Vd', '1')]),
+        # read-only transformations and the simulator must leave the circuit as it was
+        ('builtin:transformations', [('new', ['V1 1 0 step 4', 'R1 1 2 2', 'C1 2 0 1']), ('derive', 0, 'r_model'), ('query', 0, 'kinds'),
+                                     ('derive', 0, 's_model'), ('derive', 0, 'expand'), ('query', 0, 'sim'), ('derive', 0, 'copy'),
+                                     ('query', 1, 'kinds'), ('derive', 0, 'pre_initial_model'), ('derive', 0, 'noise_model')]),
         # the exception branch of add
         ('builtin:failing-adds', [('new', ['V1 1 0 5', 'R1 1 2 1', 'R2 2 0 2']), ('query', 0, 'node_list'),
                                   ('add', 0, 'R5 2'), ('add', 0, 'X1 1 2'), ('remove', 0, 'R99'), ('query', 0, 'node_list'),
@@ -1648,7 +1772,7 @@ def run_script(h, script):
             h.do_remove(st[1], st[2])
         elif st[0] == 'query':
             h.do_query(st[1], st[2], st[3] if len(st) > 3 else None)
-        elif st[0] == 'derive':
+        elif st[0] in ('derive', 'derive1'):
             h.do_derive(st[1], st[2])
         elif st[0] == 'setting':
             h.do_setting(st[1], st[2], st[3], st[4] if len(st) > 4 else None)
@@ -1672,6 +1796,24 @@ def build_code_modules(chk):
             b = common.failed_theorems(failed) or ['build:' + pf]
             broken += b
             chk.coverage['discharged'] += max(0, nthm - len(b))
+    # the reviewer's non-vacuity witnesses import the code-dependent modules: built (and audited) when those build
+    wit_needs = {'Lcapy/Props/NonVacuityC16.lean': ['Lcapy/Props/C16Atomic.lean', 'Lcapy/Props/C16SymCode.lean'],
+                 'Lcapy/Props/NonVacuityC16Alias.lean': []}
+    for pf in PROP_WITNESS:
+        if any(n not in built for n in wit_needs.get(pf, [])):
+            chk.count('degenerate', 'witness-module-skipped-because-a-code-dependent-module-is-broken')
+            continue
+        mod = pf[:-5].replace('/', '.')
+        ok, log, failed = common.lean_build([mod])
+        nthm = len(common.theorems_in(os.path.join(common.LEAN, pf)))
+        chk.coverage['obligations'] += nthm
+        if ok:
+            built.append(pf)
+            chk.coverage['discharged'] += nthm
+        else:
+            b = common.failed_theorems(failed) or ['build:' + pf]
+            broken += b
+            chk.coverage['discharged'] += max(0, nthm - len(b))
     if built:
         aud = common.lean_audit(built, [])
         for t in list(aud['nonstandard']) + aud['missing'] + aud['forbidden']:
@@ -1684,7 +1826,12 @@ def build_code_modules(chk):
 def run(chk, replay=None):
     t0 = time.time()
     # ---- 1. translator
+    # the translator reads the list of queries this harness asks from this file's source text (`harnessQueries`)
     text, info = tx_caches.generate(common.REPO)
+    asked = sorted(set(MODEL_QUERY.get(q, q) for q in (CHEAP_QUERIES + [g[0] for g in GRAPH_QUERIES] + SOLVE_QUERIES + HEAVY_QUERIES
+                                                        + DERIVES + EXTRA_DERIVES + ['battery'])))
+    if asked != tx_caches.harness_query_names():
+        raise common.Infra('translator and harness disagree on the list of queries: %s' % sorted(set(asked) ^ set(tx_caches.harness_query_names())))
     gen_path = os.path.join(common.LEAN, 'Lcapy', 'Generated', 'Caches.lean')
     def ensure_generated():
         """(re)write the generated file; True if it had to be written.  Seeded-change runs of other properties restore
@@ -1775,7 +1922,7 @@ def run(chk, replay=None):
                             h.do_derive(o[1], q)
                         else:
                             h.do_query(o[1], q, (tuple(o[3]) if isinstance(o[3], list) else o[3]) if len(o) > 3 else None)
-                    elif o[0] == 'derive':
+                    elif o[0] in ('derive', 'derive1'):
                         h.do_derive(o[1], o[2])
                     elif o[0] == 'setting':
                         h.do_setting(o[1], o[2], o[3], (tuple(o[4]) if isinstance(o[4], list) else o[4]) if len(o) > 4 else None)
@@ -1849,6 +1996,14 @@ def run(chk, replay=None):
                 sym_disagree.append(item)
     all_disagree.extend(sym_disagree)
 
+    # ---- 5c. renumber(): executable model of the optional-dictionary mechanism
+    for k in range(6 if quick else 40):
+        for item in renumber_case(chk, R, drv, rng, k):
+            if 'kind' in item:
+                all_found.append(item)
+            else:
+                all_disagree.append(item)
+
     # ---- 6. hash seeds
     seeds = [0, 1, 2] if quick else [0, 1, 2, 3, 4, 5, 6, 7]
     all_found.extend(hash_seed_runs(chk, drv, seeds))
@@ -1880,7 +2035,9 @@ def run(chk, replay=None):
                 'contexts_share_symbols': lambda k: k.get('kind') == 'symbol-registry',
                 'netlist_layer_reads_no_state_setting': lambda k: k.get('kind') == 'setting-trace',
                 'no_mutable_default_arguments': lambda k: k.get('kind') in ('default-argument-state', 'process-history', 'derive-differs'),
-                'arguments_not_mutated_through_alias': lambda k: k.get('kind') in ('result-mutated', 'result-differs')}
+                'arguments_not_mutated_through_alias': lambda k: k.get('kind') in ('result-mutated', 'result-differs'),
+                'read_only_members_write_only_memo_state_partial': lambda k: k.get('kind') in ('instance-attribute-changed', 'source-changed'),
+                'query_pure_current': lambda k: k.get('kind') in ('instance-attribute-changed', 'source-changed', 'query-impure')}
     unmatched = [k for k in all_found if common.match_finding(chk.findings, k) is None]
     for b in allb:
         thm = b.split(':')[-1]
